@@ -54,8 +54,10 @@ PANIC_NOTES = [
     # ---- versatiles tile index
     ("tile_index::TileIndex::get", "index", "self.index[index]",
      "only called from VersaTilesReader::get_tile_data with get_tile_index2(coord) of the block's box, which is < count_tiles(), and get_block_tile_index ensures index.len() == count_tiles()",
-     {"kind": "callers_are", "callers": ["<versatiles_container::container::versatiles::reader::VersaTilesReader as versatiles_core::types::tiles_reader::TilesReaderTrait>::get_tile_data",
-                                         "<versatiles_container::container::versatiles::reader::VersaTilesReader as versatiles_core::types::tiles_reader::TilesReaderTrait>::get_bbox_tile_stream"]}),
+     [{"kind": "callers_are", "callers": ["<versatiles_container::container::versatiles::reader::VersaTilesReader as versatiles_core::types::tiles_reader::TilesReaderTrait>::get_tile_data",
+                                          "<versatiles_container::container::versatiles::reader::VersaTilesReader as versatiles_core::types::tiles_reader::TilesReaderTrait>::get_bbox_tile_stream"]},
+      {"kind": "guard_before_publish", "fn": "versatiles_container::container::versatiles::reader::VersaTilesReader::get_block_tile_index",
+       "mentions": ["len()", "count_tiles()"], "publish": ["add", "get_or_set", "insert"]}]),
     # ---- byte iterator
     ("ByteIterator::advance", "index", "debug_buffer[index]", "index = position % DEBUG_RING_BUFFER_SIZE into an array of that size", None),
     ("ByteIterator::next_byte", "index", "self.buffer[self.buffer_pos]", "after the refill branch buffer_pos < buffer_len <= buffer.len() (buffer_len is the count returned by read into that buffer)", None),
